@@ -6,6 +6,7 @@ import generic_lints
 import hazard_lints
 import predicates
 import twins
+import layout_rules
 import triggers
 import a4_twin
 import json, os
@@ -31,6 +32,7 @@ def run(facts, tier):
         ("hazards", lambda fa: hazard_lints.hazards(fa, ('cpc/',)), 2, "no 64-bit value silently narrowed at a call of a library function, no numeric_limits<floating>::min() as a lowest value, no random engine constructed inside a loop, no read of a moved-from parameter, no unguarded unsigned `x - c` loop bound (reviewed instances in spec/hazards.json)"),
         ("duplicate operands", lambda fa: generic_lints.duplicate_conjuncts(fa, ('cpc/',)), 2, "no logical chain tests the same operand twice (copy-paste of the wrong peer)"),
         ("forwarding peers", lambda fa: generic_lints.forwarding_peers(fa, ('cpc/',)), 7, "one-statement typed overloads forward to an overload of their own name, never to the head of a sibling family (wrong peer)"),
+        ("codec constants", layout_rules.codec_constants_rule, 6, "peek width, stream paddings and word size of the low-level CPC encoders / decoders and buffer bounds equal the reviewed codec (compression stays lossless only while encoder padding, decoder peek and buffer bound are in step)"),
         ("overload twins", lambda fa: twins.overload_twins(fa, ('cpc/',)), 1, "const& and && overloads of one operation have identical bodies modulo std::move/forward"),
         ("structural triggers", lambda fa: triggers.obligations(fa, ['cpc_sketch_alloc', 'cpc_union_alloc', 'u32_table', 'cpc_compressor']), 18, "the comparisons that decide when to resize / rebuild / compact / purge / promote keep their reviewed boundary (operator and constants)"),
     ):
